@@ -13,9 +13,9 @@ cp $wt/SEED/meta.json $dst/meta.json 2>/dev/null
 # 1. confirmation in the scratch worktree
 t=$(cd $wt && PYTHONPATH=$wt PYTHONHASHSEED=0 timeout 900 /venv/bin/python -m pytest -q -p no:cacheprovider 2>&1 | tail -1)
 v=$(cd $wt/SEED && PYTHONPATH=$wt PYTHONHASHSEED=0 timeout 300 /venv/bin/python demo.py 2>&1 | tail -1)
-git -C $wt stash -q -- gfapy
+git -C $wt apply -R $dst/patch.diff
 h=$(cd $wt/SEED && PYTHONPATH=$wt PYTHONHASHSEED=0 timeout 300 /venv/bin/python demo.py 2>&1 | tail -1)
-git -C $wt stash pop -q
+git -C $wt apply $dst/patch.diff
 echo "tests: $t | demo on change: $v | demo on original: $h"
 # 2. the checks against the change
 git -C /repo apply $dst/patch.diff || { echo "PATCH DOES NOT APPLY"; exit 2; }
